@@ -265,14 +265,14 @@ func (x *pvInst) describeCall(o *callOut) map[string]interface{} {
 	if o.vote != nil {
 		d["call"] = "SignVote"
 		d["vote"] = map[string]interface{}{"height": fmt.Sprint(o.vote.Height), "round": o.vote.Round, "type": o.vote.Type,
-			"block_id": fmt.Sprintf("%x/%d:%x", o.vote.BlockID.Hash[:], o.vote.BlockID.PartsHeader.Total, []byte(o.vote.BlockID.PartsHeader.Hash)),
+			"block_id":  fmt.Sprintf("%x/%d:%x", o.vote.BlockID.Hash[:], o.vote.BlockID.PartsHeader.Total, []byte(o.vote.BlockID.PartsHeader.Hash)),
 			"timestamp": types.CanonicalTime(o.vote.Timestamp), "signed": o.vote.Signature != nil}
 	} else {
 		d["call"] = "SignProposal"
 		d["proposal"] = map[string]interface{}{"height": fmt.Sprint(o.prop.Height), "round": o.prop.Round,
 			"parts": fmt.Sprintf("%d:%x", o.prop.BlockPartsHeader.Total, []byte(o.prop.BlockPartsHeader.Hash)), "pol_round": o.prop.POLRound,
 			"pol_block_id": fmt.Sprintf("%x/%d:%x", o.prop.POLBlockID.Hash[:], o.prop.POLBlockID.PartsHeader.Total, []byte(o.prop.POLBlockID.PartsHeader.Hash)),
-			"timestamp": types.CanonicalTime(o.prop.Timestamp), "signed": o.prop.Signature != nil}
+			"timestamp":    types.CanonicalTime(o.prop.Timestamp), "signed": o.prop.Signature != nil}
 	}
 	return d
 }
@@ -501,11 +501,11 @@ func (x *pvInst) compareCall(o *callOut, expect string, a *act, from, to *mstate
 		case expect == "refused" && got == "replay":
 			return &mismatch{key: "unsafe-replay/" + a.Why, desc: fmt.Sprintf("the request must be refused (%s; last signed %v) but the call succeeded with the stored signature", a.Why, from.Mem)}
 		case expect == "replay" && got == "refused":
-			return &mismatch{key: "wrongly-refused/repeat", desc: fmt.Sprintf("a repeated request (same height/round/step, payload equal up to the timestamp; last signed %v) was refused: %v", from.Mem, o.err)}
+			return &mismatch{key: "wrongly-refused/repeat", desc: fmt.Sprintf("a repeated request (same height/round/step, payload equal up to the timestamp; last signed %v) was refused: %v", from.Mem, o.err), drift: true} // the property allows refusing a repeat
 		case expect == "replay" && got == "signed":
 			return &mismatch{key: "resigned-repeat", desc: fmt.Sprintf("a repeated request (last signed %v) was signed anew instead of returning the stored signature", from.Mem)}
 		case expect == "signed" && got == "refused", expect == "crashed" && got == "refused":
-			return &mismatch{key: "wrongly-refused/" + hrsClass(from.Mem, p), desc: fmt.Sprintf("a request above the last signed height/round/step (%v) was refused: %v", from.Mem, o.err)}
+			return &mismatch{key: "wrongly-refused/" + hrsClass(from.Mem, p), desc: fmt.Sprintf("a request above the last signed height/round/step (%v) was refused: %v", from.Mem, o.err), drift: true} // liveness, not in the (safety) statement
 		case expect == "signed" && got == "replay", expect == "crashed" && got == "replay":
 			return &mismatch{key: "stale-replay", desc: fmt.Sprintf("a request above the last signed height/round/step (%v) got the stored signature", from.Mem)}
 		case expect == "crashed":
